@@ -260,7 +260,13 @@ def agree(a, b):
     if isinstance(a, (complex, np.complexfloating)) or isinstance(
             b, (complex, np.complexfloating)):
         try:
-            return abs(complex(a) - complex(b)) <= 1e-9 * max(1, abs(complex(b)))
+            za, zb = complex(a), complex(b)
+            if za != za or zb != zb:
+                # nan parts (overflowing complex powers): nan agrees with nan, part by part
+                same = lambda u, v: (u != u and v != v) or u == v or (  # noqa: E731
+                    abs(u - v) <= 1e-9 * max(1, abs(v)))
+                return same(za.real, zb.real) and same(za.imag, zb.imag)
+            return abs(za - zb) <= 1e-9 * max(1, abs(zb))
         except Exception:
             return False
     if isinstance(a, float) or isinstance(b, float) or isinstance(
